@@ -38,7 +38,12 @@ META = {
             '(tied by replay / value correspondence); closures; floating point. The freezing of the masses of an '
             'exited particle is proved only under the hypothesis that all history states used by a step carry the '
             'same value (false for a multistep method during the first steps after the exit) — on the real code it is '
-            'a sampled predicate with the tolerance the solver was given.',
+            'a sampled predicate with the tolerance the solver was given (key exit-masses-drift when exceeded). The stop '
+            'reason is judged both as the code evaluates it (replayed tests) and in the physical sense of the statement: a '
+            'stop by the neutral-buoyancy counter needs a genuine reversal of the vertical momentum followed by a genuine '
+            'reversal of rho_a - rho (key neutral-stop-before-peak: exactly horizontal releases, where np.sign(0.) is '
+            'counted as a reversal). Stall and iteration-cap endings did not occur in any sampled simulation; they are '
+            'covered by the theorem and the replay logic only.',
     'technique': 'Lean 4 proof over a hand model of loop control + invariants; complete real simulations post-processed and replayed',
 }
 GEN = []
@@ -219,6 +224,7 @@ def check_simulation(ctx, scn, bpm, prf, parts, tam):
     # ---- frozen masses after exit --------------------------------------------------------------------------
     N = q.shape[1]
     worst_frozen = 0.
+    drifts = []
     for i, k0 in exits.items():
         if k0 == 0:
             continue
@@ -231,11 +237,13 @@ def check_simulation(ctx, scn, bpm, prf, parts, tam):
             with np.errstate(divide='ignore', invalid='ignore'):
                 worst_frozen = max(worst_frozen, float(np.nanmax(np.where(ref != 0, d / np.abs(ref), 0.))))
             if np.any(d > allow):
-                c = int(np.argmax(d - allow))
-                ctx.violation('exit-masses-drift', 'recorded masses of a particle keep changing after it left the plume, by more than the tolerance the solver was given',
-                              dict(base, particle=i, exit_row=k0 - 1, row=k, steps_after_exit=j, slot=a + c,
-                                   mass_at_exit=float(ref[c]), mass=float(q[k, a + c]),
-                                   allowed=float(allow[c]), change=float(d[c])))
+                c = int(np.argmax(d / allow))
+                # collected, the worst one over all simulations is reported first (run())
+                drifts.append((float(d[c] / allow[c]),
+                               dict(base, particle=i, exit_row=k0 - 1, row=k, steps_after_exit=j, slot=a + c,
+                                    mass_at_exit=float(ref[c]), mass=float(q[k, a + c]), allowed=float(allow[c]),
+                                    change=float(d[c]), change_over_allowed=float(d[c] / allow[c]),
+                                    change_over_rtol_m_plus_atol=float(d[c] / (j * (VODE_RTOL * abs(ref[c]) + VODE_ATOL))))))
                 break
     # ---- stop reason ---------------------------------------------------------------------------------------
     rel = scn['release']
@@ -268,7 +276,7 @@ def check_simulation(ctx, scn, bpm, prf, parts, tam):
     obs = [[q[k, 5], q[k + 1, 5], dr[k], dr[k + 1], q[k + 1, 10], q[k, 10], q[k + 1, 9], float(bpm.D), float(rel['sd_max'])]
            for k in range(n - 1)]
     return {'n': n, 'obs': obs, 'kstop': kstop, 'reasons': reasons, 'worst': worst, 'worst_frozen': worst_frozen, 'lay': lay,
-            'q': q}
+            'q': q, 'drifts': drifts}
 
 
 def corrections_case(ctx, tam, parts, lay, row):
@@ -313,6 +321,7 @@ def run(ctx, lean_ok):
     lines = []
     corr = []
     nrej = 0
+    all_drifts = []
     worst = worst_frozen = 0.
     for i in range(nscn):
         scn = _scenario(ctx, i)
@@ -343,6 +352,7 @@ def run(ctx, lean_ok):
         ctx.sample({'kinds': kinds, 'depth': scn['depth'], 'phi_0': scn['release']['phi_0'], 'Vj': scn['release']['Vj'],
                     'rows': res['n'], 'stop': res['reasons'], 'worst_total_drift': res['worst']})
         sims.append((scn, res))
+        all_drifts.extend(res['drifts'])
         lines.append(req('Lmp.calculate', CAP, res['n'] - 1, *res['obs']))
         # corrections on two rows of this simulation
         for k in sorted(set([res['n'] - 1, ctx.rng.randint(0, res['n'] - 1)])):
@@ -355,6 +365,12 @@ def run(ctx, lean_ok):
     if not sims:
         ctx.oblige('at least one complete simulation', False, 'every scenario raised')
         return
+    for _ratio, case in sorted(all_drifts, key=lambda x: -x[0]):
+        ctx.violation('exit-masses-drift', 'recorded masses of a particle keep changing after it left the plume, by more than the tolerance the solver was given',
+                      case)
+    if all_drifts:
+        ctx.notes.append('%d exited particles moved by more than steps*sqrt(N)*(rtol*|m|+atol) after the exit; worst %.1f times that allowance'
+                         % (len(all_drifts), max(x[0] for x in all_drifts)))
     ctx.notes.append('worst relative drift of a compound total / inert mass over all simulations: %.3g' % worst)
     ctx.notes.append('largest relative change of a mass slot after its particle left the plume: %.3g' % worst_frozen)
 
@@ -414,3 +430,21 @@ def run(ctx, lean_ok):
                                    'row %d flags %r: model %r code %r' % (k, cc['flags'], o, [float(x) for x in cc['after']])))
     ctx.oblige('correspondence Model.Lmp.correctTemperature/correctParticleTracking == lmp.correct_* on %d vectors' % len(corr),
                nbad == 0, '%d vectors disagree' % nbad)
+
+
+def replay(ctx, path):
+    """re-run the recorded scenario on the real code and re-evaluate the predicates"""
+    import json
+    warnings.filterwarnings('ignore')
+    tam = _tamoc()
+    rec = json.load(open(path))
+    scn = rec['case']['scenario']
+    with np.errstate(all='ignore'):
+        bpm, prf, parts = scen_bpm.simulate(scn)
+        res = check_simulation(ctx, scn, bpm, prf, parts, tam)
+    for _ratio, case in (res['drifts'] if res else []):
+        ctx.violation('exit-masses-drift', 'recorded masses of a particle keep changing after it left the plume, by more than the tolerance the solver was given', case)
+    for v in ctx.violations:
+        print('%s: %s %r' % (v['key'], v['what'], {k: x for k, x in v['case'].items() if k != 'scenario'}))
+    print('rows %d, %d violation(s) reproduced' % (len(bpm.t), len(ctx.violations)))
+    return 1 if ctx.violations else 0
